@@ -144,3 +144,22 @@ Example quiet_two_groups_second_poll_is_silent :
       map (ql w1) (blks (groups u1)) = [0; 0]
       /\ twakes (log (snd (fu_poll_next P0 false u1 8 w1))) = twakes (log w1)).
 Proof. vm_compute. repeat split; reflexivity. Qed.
+
+(** MergeLedger: a MergeUnbounded history with three sources, one of them pushed while the merge
+    is being consumed; source 2 answers Pending after its first item and is still held with one
+    item produced.  The hypotheses of C11_merge_sources_in_order hold (merge history, distinct
+    ids) and the items of each source come out numbered from 0 in order *)
+From FB Require Import MergeLedger.
+Definition ops_merge : list op :=
+  [OBuild TMU cp0 [] []; OPush 1%N [([], RI); ([], RI); ([], RE)]; OPush 2%N [([], RI); ([], RP); ([], RI); ([], RE)];
+   OPoll 0 no_inj; OPoll 0 no_inj; OPush 3%N [([], RI); ([], RE)];
+   OPoll 0 no_inj; OPoll 0 no_inj; OPoll 0 no_inj; OPoll 0 no_inj; OPoll 0 no_inj].
+Example merge_history_in_source_order :
+  Forall m_op ops_merge /\ NoDup (taken_in P0 init_state ops_merge)
+  /\ handed_in P0 init_state ops_merge = [TItem 1%N 0; TItem 2%N 0; TItem 1%N 1; TItem 3%N 0]
+  /\ hs_coll (st_coll (reach P0 ops_merge)) = [(2%N, 1)]
+  /\ seqs 1%N (handed_in P0 init_state ops_merge) = seq 0 2.
+Proof.
+  split; [repeat constructor|]. split; [vm_compute; repeat constructor; simpl; intuition discriminate|].
+  vm_compute. repeat split; reflexivity.
+Qed.
